@@ -40,8 +40,7 @@ Fixpoint insert (x : nat) (l : list nat) : list nat :=
 Definition sort (l : list nat) : list nat := fold_right insert [] l.
 
 Definition edge_ok (n : nat) (e : nat * nat) : bool := Nat.ltb (fst e) n && Nat.ltb (snd e) n.
-(* node indices in range (the quantifier of C12); n <= 10^6 keeps the Python path's silent iteration cap
-   `max_iter = 1_000_000` of bfs()/dfs() out of play (see PyEdges below) *)
+(* node indices in range (the quantifier of C12) *)
 Definition valid_input (n : nat) (edges : list (nat * nat)) (source : nat) (target : option nat) : bool :=
   Nat.ltb source n && forallb (edge_ok n) edges &&
   match target with None => true | Some t => Nat.ltb t n end.
@@ -59,7 +58,7 @@ Definition adj_of (n : nat) (edges : list (nat * nat)) : Bfs.adjl :=
 Definition conv_status (s : Bfs.status) : status :=
   match s with Bfs.OPTIMAL => OPTIMAL | Bfs.FEASIBLE => FEASIBLE | Bfs.INFEASIBLE => INFEASIBLE | Bfs.MAX_ITER => MAX_ITER end.
 
-(* result = bfs(source, target, lambda s: adj[s])       (max_iter = 1_000_000 by default)
+(* result = bfs(source, target, lambda s: adj[s], max_iter=max(1_000_000, n_nodes + len(edges) + 1))
    if target is None: return Result(sorted(result.solution), 0, ...)  else  return result *)
 Definition wrap (r : option Bfs.result) : option result :=
   match r with
@@ -73,8 +72,12 @@ Definition wrap (r : option Bfs.result) : option result :=
 Definition goal_of (target : option nat) : option (nat -> bool) :=
   match target with None => None | Some t => Bfs.goal_val t end.
 
+(* the iteration budget the wrappers pass: never truncates (every node is expanded at most once) *)
+Definition max_iter_of (n : nat) (edges : list (nat * nat)) : Z :=
+  Z.max 1000000 (Z.of_nat (n + length edges + 1)).
+
 Definition search_edges (m : Bfs.mode) (n : nat) (edges : list (nat * nat)) (source : nat) (target : option nat) : option result :=
-  wrap (Bfs.search m (adj_of n edges) source (goal_of target) 1000000%Z).
+  wrap (Bfs.search m (adj_of n edges) source (goal_of target) (max_iter_of n edges)).
 
 Definition bfs_edges := search_edges Bfs.Queue.
 Definition dfs_edges := search_edges Bfs.Stack.
